@@ -356,4 +356,26 @@ def check_case(case):
     if not np.array_equal(np.asarray(flat, dtype=float), exp):
         k = int(np.nonzero(np.asarray(flat) != exp)[0][0])
         bad("sex:expect_flat", f"expect_flat_log2[{k}] = {flat[k]!r} for {rows[k]['chromosome']}:{rows[k]['start']}, expected {exp[k]!r}; {ctx}")
+    # ---- command-line tier (a quarter of the sex cases): `cnvkit.py sex` on the written table = do_sex on the same file,
+    # and the command's table states the planted sex
+    from vk import gen
+
+    if gen.pick(case, "cli", 4) == 0 and not out:
+        import os
+        import shutil
+        import tempfile
+
+        from vk import cli
+
+        d = tempfile.mkdtemp(prefix="vk15.")
+        try:
+            diff = cli.sex_diff([cna], d, case["male_ref"], case["par"])
+            if diff:
+                bad("cli:sex", diff)
+            else:
+                lines = open(os.path.join(d, "x.cli.tsv")).read().splitlines()
+                if len(lines) != 2 or lines[1].split("\t")[1] != want:
+                    bad("cli:sex", f"cnvkit.py sex wrote {lines[:3]}, planted sex {want}; {ctx}")
+        finally:
+            shutil.rmtree(d, ignore_errors=True)
     return out
